@@ -148,6 +148,13 @@ func (vc *VC) loopHeader(fr *frame, n *Node, phis []*ssa.Phi, entryVals map[*ssa
 		v := vc.havocVal(n, phi, n.st)
 		hv[phi] = v
 	}
+	// automatic invariant of range loops: the hidden index starts at -1 and only increments
+	// (entry value is the constant -1 and every back edge passes index+1: checked structurally)
+	for _, phi := range phis {
+		if phi.Comment == "rangeindex" && rangeIndexShape(phi) {
+			vc.assume(implies(n.reach, fmt.Sprintf("(>= %s (- 1))", hv[phi].T)))
+		}
+	}
 	// 3. assume invariants
 	if lc != nil {
 		for _, inv := range lc.Invariants {
@@ -161,6 +168,29 @@ func (vc *VC) loopHeader(fr *frame, n *Node, phis []*ssa.Phi, entryVals map[*ssa
 		vc.enc.notes[fmt.Sprintf("loop %d of %s has no invariant (havoc only)", l.ordinal, fr.fn.Name())] = true
 	}
 	_ = preSt
+}
+
+// rangeIndexShape: phi [-1, t, t, ...] where t = phi + 1.
+func rangeIndexShape(phi *ssa.Phi) bool {
+	seenInit := false
+	for _, e := range phi.Edges {
+		if c, ok := e.(*ssa.Const); ok {
+			if c.Value != nil && c.Int64() == -1 {
+				seenInit = true
+				continue
+			}
+			return false
+		}
+		b, ok := e.(*ssa.BinOp)
+		if !ok || b.Op != token.ADD || b.X != phi {
+			return false
+		}
+		c, ok := b.Y.(*ssa.Const)
+		if !ok || c.Value == nil || c.Int64() != 1 {
+			return false
+		}
+	}
+	return seenInit
 }
 
 func labelOr(label string, k int) string {
@@ -708,7 +738,12 @@ func (vc *VC) zeroInit(st *State, p string, t types.Type) {
 	switch u := t.Underlying().(type) {
 	case *types.Struct:
 		for i := 0; i < u.NumFields(); i++ {
-			vc.zeroInit(st, vc.enc.fieldPtr(p, i), u.Field(i).Type())
+			ft := u.Field(i).Type()
+			if isCellType(ft) {
+				vc.storeM(st, vc.enc.memForField(t, i), vc.enc.fieldPtr(p, i), ft, vc.enc.zero(ft))
+				continue
+			}
+			vc.zeroInit(st, vc.enc.fieldPtr(p, i), ft)
 		}
 	case *types.Array:
 		// all elements of the fresh array are zero
